@@ -225,6 +225,15 @@ def gen_tree_ops(rng, tname, max_changes=3, max_files=3, p_set=0.5,
                     + ([''] if rng.chance(0.7) else [])).encode(de).hex()}
                 fattrs['diff_encoding'] = de
 
+            if diffs is None and 'diff' in fattrs and rng.chance(0.02):
+                # a codec name nobody knows on a diff (with / without
+                # declared line endings)
+                fattrs['diff_encoding'] = rng.choice(['nope-8', 'x-user',
+                                                      'utf-99'])
+
+                if rng.chance(0.5):
+                    fattrs.pop('diff_line_endings', None)
+
             ops.append({'op': 'add_file', 'tree': tname, 'change': ci,
                         'attrs': fattrs})
             sets([ci, fi], 'file', sorted(ATTRS['file']), p_set * 0.3)
